@@ -214,6 +214,22 @@ func init() {
 			}
 			return tuple{out, iface{}}
 		},
+		"(*os.unixDirent).Info": func(fr *frame, a []value) value {
+			st := (*(a[0].(*value))).(structure)
+			p := st[0].(string) + "/" + st[1].(string)
+			node := FS.files[p]
+			if node == nil {
+				return tuple{iface{}, errNotExist(fr, "lstat", p)}
+			}
+			T := fr.i.prog.ImportedPackage("os").Type("fileStat").Object().Type()
+			fs := zero(T).(structure)
+			fs[0] = st[1]
+			fs[1] = int64(len(node.data))
+			var cell value = fs
+			return tuple{iface{t: types.NewPointer(T), v: &cell}, iface{}}
+		},
+		"(*os.unixDirent).Type": func(fr *frame, a []value) value { return uint32(0) },
+		"os.Lstat": func(fr *frame, a []value) value { return externals["os.Stat"](fr, a) },
 		"os.Stat": func(fr *frame, a []value) value {
 			p := a[0].(string)
 			node := FS.files[p]
